@@ -24,6 +24,16 @@ static std::vector<std::array<TA, 6>> tensors() {
         v.push_back(b);
       }
     }
+  // structured tensors: every diagonal tensor over {-2..3}^3 - isotropic ones (k*I), plane shears diag(0,s,-s), tensors whose
+  // first entry equals the mean - alone, with one shear component, and at a non-representable scale
+  for (int a = -2; a <= 3; a++)
+    for (int b = -2; b <= 3; b++)
+      for (int c = -2; c <= 3; c++) {
+        if (!a && !b && !c) continue;
+        v.push_back({(TA)a, 0, 0, (TA)b, 0, (TA)c});
+        if ((a + 2 * b + 3 * c) % 4 == 0) v.push_back({(TA)a, 0, (TA)1, (TA)b, 0, (TA)c});
+        if ((a + b + c) % 3 == 0) v.push_back({(TA)(a * 0.3L), 0, 0, (TA)(b * 0.3L), 0, (TA)(c * 0.3L)});
+      }
   // the same tensors at small and large magnitudes (traces far below machine epsilon, far above 1)
   {
     const size_t n0 = v.size();
